@@ -14,8 +14,13 @@ for id in "$@"; do
     cp "$SRC/patch.diff" "$SRC/demo.rs" "$SRC/NOTES.md" "$DST/" 2>/dev/null
     conf=$(/verif/tools/confirm_seeded.sh $SRC_PREFIX$id $V 2>&1)
     echo "$conf" > "$DST/confirm.log"
-    res=$(/verif/tools/try_seeded.sh "$DST/patch.diff" 2>&1)
-    echo "$res" > "$DST/checks.log"
+    if [ -n "${SKIP_TRY:-}" ]; then
+      # confirmation only (touches the scratch worktree, not /repo); detection is filled in by tools/refresh_seeded.sh
+      [ -f "$DST/checks.log" ] || echo "(not run yet)" > "$DST/checks.log"
+    else
+      res=$(/verif/tools/try_seeded.sh "$DST/patch.diff" 2>&1)
+      echo "$res" > "$DST/checks.log"
+    fi
     python3 - "$id" "$V$SUFFIX" "$DST" <<'PY'
 import sys,json,re
 pid,V,dst=sys.argv[1:4]
